@@ -148,6 +148,20 @@ func regexAtoms() []*ref.Expr {
 			out = append(out, ref.Bin("~=", f.Clone(), ref.S(r)))
 		}
 	}
+	// patterns / prefixes that depend on the pair (per-statement caching of a
+	// compiled pattern must not outlive the pair it was computed from)
+	out = append(out,
+		ref.Bin("~=", ref.Key(), ref.Value()),
+		ref.Bin("~=", ref.Value(), ref.Key()),
+		ref.Bin("~=", ref.Key(), ref.Bin("+", ref.S("^"), ref.Value())),
+		ref.Bin("~=", ref.Key(), ref.Call("lower", ref.Value())),
+		ref.Bin("~=", ref.Value(), ref.Bin("+", ref.Key(), ref.S("$"))),
+		ref.Bin("~=", ref.Bin("+", ref.Key(), ref.Value()), ref.Bin("+", ref.Value(), ref.S("$"))),
+		ref.Bin("^=", ref.Key(), ref.Value()),
+		ref.Bin("^=", ref.Value(), ref.Key()),
+		ref.Bin("^=", ref.Key(), ref.Call("lower", ref.Value())),
+		ref.Bin("^=", ref.Bin("+", ref.Key(), ref.Value()), ref.Bin("+", ref.Key(), ref.S("1"))),
+	)
 	return out
 }
 
